@@ -350,6 +350,89 @@ pub proof fn lemma_child_named(m: Map<u64, Arc<PseudoInode>>, root: Arc<PseudoIn
 }
 """
 
+FSM = r"""
+// =====================================================================================================================
+// ---- models for the FileSystem methods
+pub type mode_t = u32; pub type nlink_t = u64; pub type dev_t = u64; pub type blksize_t = i64;
+pub open spec fn zero_stat64() -> stat64 {
+    stat64 { st_dev: 0, st_ino: 0, st_nlink: 0, st_mode: 0, st_uid: 0, st_gid: 0, st_rdev: 0, st_size: 0, st_blksize: 0, st_blocks: 0,
+             st_atime: 0, st_atime_nsec: 0, st_mtime: 0, st_mtime_nsec: 0, st_ctime: 0, st_ctime_nsec: 0 }
+}
+// std::mem::zeroed::<libc::stat64>() (inside `unsafe`): the all-zero bit pattern of a plain-old-data struct (rule R9)
+pub mod mem {
+    use vstd::prelude::*;
+    #[verifier::external_body] pub unsafe fn zeroed() -> (r: super::stat64) ensures r == super::zero_stat64() { unimplemented!() }
+}
+pub open spec fn stat_of_attr(a: Attr) -> stat64 {
+    stat64 { st_ino: a.ino, st_size: a.size as i64, st_blocks: a.blocks as i64, st_atime: a.atime as i64, st_mtime: a.mtime as i64, st_ctime: a.ctime as i64,
+             st_atime_nsec: a.atimensec as i64, st_mtime_nsec: a.mtimensec as i64, st_ctime_nsec: a.ctimensec as i64, st_mode: a.mode, st_nlink: a.nlink as u64,
+             st_uid: a.uid, st_gid: a.gid, st_rdev: a.rdev as u64, st_blksize: a.blksize as i64, ..zero_stat64() }
+}
+impl vstd::std_specs::convert::FromSpecImpl<Attr> for stat64 {
+    open spec fn obeys_from_spec() -> bool { true }
+    open spec fn from_spec(a: Attr) -> stat64 { stat_of_attr(a) }
+}
+impl Duration { pub fn from_secs(secs: u64) -> (r: Duration) ensures r == (Duration { secs: secs, nanos: 0 }) { Duration { secs: secs, nanos: 0 } } }
+// std::time::SystemTime: the clock is opaque; it does not stand before 1970 (assumed: `.unwrap()` in get_entry)
+#[verifier::external_body] pub struct SystemTime { _p: u8 }
+#[verifier::external_body] #[derive(Debug)] pub struct SystemTimeError { _p: u8 }
+impl SystemTime {
+    #[verifier::external_body] pub fn now() -> (r: SystemTime) { unimplemented!() }
+    #[verifier::external_body] pub fn unix_epoch() -> (r: SystemTime) { unimplemented!() }
+    #[verifier::external_body] pub fn duration_since(&self, earlier: SystemTime) -> (r: core::result::Result<Duration, SystemTimeError>) ensures r is Ok { unimplemented!() }
+}
+// UTF-8: String / &str <-> bytes (assumed: an inverse pair)
+pub uninterp spec fn utf8_enc(s: Seq<char>) -> Seq<u8>;
+pub uninterp spec fn utf8_dec(b: Seq<u8>) -> Seq<char>;
+pub uninterp spec fn is_utf8(b: Seq<u8>) -> bool;
+pub broadcast axiom fn axiom_utf8_inverse(s: Seq<char>) ensures is_utf8(#[trigger] utf8_enc(s)), utf8_dec(utf8_enc(s)) == s;
+#[verifier::external_body] pub struct Utf8Error { _p: u8 }
+impl CStr {
+    #[verifier::external_body] pub fn to_str(&self) -> (r: core::result::Result<&str, Utf8Error>) ensures r is Ok <==> is_utf8(self@), r is Ok ==> r->Ok_0@ == utf8_dec(self@) { unimplemented!() }
+}
+// `S.clone().as_bytes()`: the UTF-8 bytes of (a copy of) the string
+#[verifier::external_body] pub fn str_bytes(s: &String) -> (r: &[u8]) ensures r@ == utf8_enc(s@) { unimplemented!() }
+pub const DT_DIR: u32 = 4;          // libc::DT_DIR (dirent.h): the entry is a directory
+// ---- the callback `&mut dyn FnMut(DirEntry) -> io::Result<usize>`: a generic object with a ghost log of its calls (as in unit ptreaddir)
+pub ghost struct CallRec { pub ino: u64, pub off: u64, pub ty: u32, pub name: Seq<u8>, pub ok: Option<usize> }
+pub trait AddEntry {
+    spec fn log(&self) -> Seq<CallRec>;
+    fn call(&mut self, d: DirEntry<'_>) -> (r: Result<usize>)
+        ensures final(self).log() == old(self).log().push(CallRec { ino: d.ino, off: d.offset, ty: d.type_, name: d.name@, ok: match r { Ok(n) => Some(n), Err(_) => None } });
+}
+pub open spec fn new_calls(log: Seq<CallRec>, log0: Seq<CallRec>) -> Seq<CallRec> { log.skip(log0.len() as int) }
+pub open spec fn extends(log: Seq<CallRec>, log0: Seq<CallRec>) -> bool { log.len() >= log0.len() && log.take(log0.len() as int) =~= log0 }
+// the callback took the entry: Ok(n) with n != 0 (Ok(0) = "no room", Err = failure)
+pub open spec fn accepted(c: CallRec) -> bool { c.ok is Some && c.ok->Some_0 != 0 }
+// ---- what a pseudo directory lists: every child once, in creation order, entry i resumable by offset i + 1; no "." / ".." (they are no children)
+pub struct PEnt { pub ino: u64, pub off: u64, pub name: Seq<u8> }
+pub open spec fn dir_entries(v: PView, d: u64) -> Seq<PEnt> {
+    Seq::new(v.nodes[d].kids.len(), |i: int| PEnt { ino: v.nodes[d].kids[i], off: (i + 1) as u64, name: utf8_enc(v.nodes[v.nodes[d].kids[i]].name) })
+}
+pub open spec fn run_after(es: Seq<PEnt>, offset: u64) -> Seq<PEnt> { if offset >= es.len() { Seq::empty() } else { es.skip(offset as int) } }
+pub open spec fn call_matches(c: CallRec, e: PEnt) -> bool { c.ino == e.ino && c.off == e.off && c.name == e.name }
+// what one do_readdir call may do with the run after the resume offset: offer its entries in order, each with its own ino / offset / name, never go on
+// after an entry was not accepted (nothing is skipped), and stop early only for that reason
+pub open spec fn delivered_ok(run: Seq<PEnt>, calls: Seq<CallRec>) -> bool {
+    &&& calls.len() <= run.len()
+    &&& forall|j: int| 0 <= j < calls.len() ==> call_matches(#[trigger] calls[j], run[j])
+    &&& forall|j: int| 0 <= j < calls.len() - 1 ==> accepted(#[trigger] calls[j])
+    &&& calls.len() < run.len() ==> calls.len() > 0 && !accepted(calls.last())
+}
+// the entry every pseudo inode is described by: a directory rwxrwxrwx, block size 4096, the three times equal, cacheable for 2^32 s
+pub open spec fn pseudo_entry(e: Entry, ino: u64) -> bool {
+    &&& e.inode == ino && e.generation == 0 && e.attr_flags == 0
+    &&& e.attr == (stat64 { st_ino: ino, st_mode: 0o040777u32, st_blksize: 4096, st_atime: e.attr.st_ctime, st_mtime: e.attr.st_ctime, st_ctime: e.attr.st_ctime, ..zero_stat64() })
+    &&& e.attr_timeout == (Duration { secs: 0x1_0000_0000, nanos: 0 }) && e.entry_timeout == e.attr_timeout
+}
+pub open spec fn dot() -> Seq<char> { seq!['.'] }
+pub open spec fn dotdot() -> Seq<char> { seq!['.', '.'] }
+// lookup(parent, name): "." is the directory itself, ".." its parent (the root is its own parent), any other name the child of that name
+pub open spec fn lookup_target(v: PView, parent: u64, n: Seq<char>) -> Option<u64> {
+    if n == dot() { Some(parent) } else if n == dotdot() { Some(v.nodes[parent].parent) } else { child_named(v, parent, n) }
+}
+"""
+
 
 def tok(f, callees):
     f.rules = tuple(getattr(f, 'rules', ())) + ('R23',)
@@ -387,6 +470,14 @@ def unit(root='/repo'):
         Copy(PFS, r'pub struct PseudoFs\b', subst=[('next_inode: AtomicU64', 'next_inode: AtomicU64H'),
                                                    ('inodes: ArcSwap<HashMap<u64, Arc<PseudoInode>>>', 'inodes: ArcSwapT<HashMap<u64, Arc<PseudoInode>>>')]),
         Raw(SPEC), Raw(PATHS), Raw(WALK),
+        Copy(ABI, r'pub struct Attr\b', prefix='#[derive(Clone, Copy)]'),
+        Raw(wiremodel.default_text('Attr', wiremodel.parse_struct(root, ABI, 'Attr'))),
+        Copy(FSMOD, r'pub struct Context\b', prefix='#[derive(Clone, Copy)]', subst=[('libc::uid_t', 'u32'), ('libc::gid_t', 'u32'), ('libc::pid_t', 'i32')]),
+        Copy(FSMOD, r'pub struct Entry\b', prefix='#[derive(Clone, Copy)]'),
+        Copy(FSMOD, r'pub struct DirEntry\b', prefix='#[derive(Clone, Copy)]', subst=[('ino64_t', 'u64')]),
+        Copy(PFS, r'const PSEUDOFS_DEFAULT_ATTR_TIMEOUT\b'),
+        Copy(PFS, r'const PSEUDOFS_DEFAULT_ENTRY_TIMEOUT\b'),
+        Raw(FSM),
     ]
     P7 = ['C07']
     # ---------------------------------------------------------------- PseudoInode
@@ -529,5 +620,51 @@ def unit(root='/repo'):
     mnt.body_hooks = [OR.r28_for_owned(r"'outer:\s*for\s+(component)\s+in\s+(path\.components\(\))\s*\{", '', 'comp_it', header_extra=MOUNT_INV,
                                        mid="proof { broadcast use axiom_path_comps_normal; } #[verifier::loop_isolation(false)] 'outer:")]
     items.append(Group('impl PseudoFs {', [pw, mnt]))
+
+    # ---------------------------------------------------------------- FileSystem methods
+    P16 = ['C16']
+    FS = 'impl FileSystem for PseudoFs'
+    items.append(Group('impl From<Attr> for stat64 {', [
+        Fn(ABI, 'impl From<Attr> for stat64', 'from', props=P7, ensures=['r == stat_of_attr(attr) // [C07.pseudo.attr.fields]'])]))
+    EPOCH = (r'SystemTime::UNIX_EPOCH', 'SystemTime::unix_epoch()', 'associated constant of an opaque model type -> constructor function')
+    ge = Fn(PFS, PP, 'get_entry', props=P7, canary=True, body_resub=[EPOCH],
+            ensures=['pseudo_entry(r, ino) // [C07.pseudo.get_entry.dir] the number asked for, described as a directory'],
+            splices=[('attr.blksize = 4096;', 'after', 'proof { assert(0o040000u32 | 0o700u32 | 0o070u32 | 0o007u32 == 0o040777u32) by (bit_vector); assert(1u64 << 32 == 0x1_0000_0000u64) by (bit_vector); }')])
+    ENOENT_CL = '|| -> (q: Error) ensures q.os_code() == Some(libc::ENOENT),'
+    KIDS_P = (r'for child in pinode\.children\.load\(Tracked\(hp\)\)\.iter\(\) \{', r'let kidsp = pinode.children.load(Tracked(hp)); for child in kidsp.iter() {',
+              'the temporary of the `for` iterator expression bound to a name')
+    LK_SCAN = """proof { assert forall|j: int| 0 <= j < kidsp@.len() implies (#[trigger] kidsp@[j]).ino != 0 by { assert(mkids(self.im(*hp), *hp, parent)[j] == kidsp@[j]); } }
+                #[verifier::loop_isolation(false)]
+                for child in itp: kidsp.iter()
+                    invariant_except_break ino == 0, forall|j: int| 0 <= j < itp.index@ ==> (#[trigger] kidsp@[j]).name@ != child_name@,
+                    ensures ino == 0 ==> (forall|j: int| 0 <= j < kidsp@.len() ==> (#[trigger] kidsp@[j]).name@ != child_name@),
+                            ino != 0 ==> (exists|j: int| 0 <= j < kidsp@.len() && (#[trigger] kidsp@[j]).name@ == child_name@ && ino == kidsp@[j].ino),
+                {"""
+    lk = tok(Fn(PFS, FS, 'lookup', props=P7, canary=True, body_resub=[KIDS_P, STREQ], sig_subst=[('_: &Context', '_ctx: &Context')],     # R3 for a parameter: `_` named (the verus! macro wants identifiers)
+                requires=['self.wf(*old(hp))'],
+                ensures=['%s == %s // [C07.pseudo.lookup.frame]' % (H1, H0),
+                         '!self.view(*old(hp)).nodes.contains_key(parent) ==> r is Err && r->Err_0.os_code() == Some(libc::ENOENT) // [C07.pseudo.lookup.unknown_parent]',
+                         'self.view(*old(hp)).nodes.contains_key(parent) && !is_utf8(name@) ==> r is Err && r->Err_0.os_code() == Some(libc::EINVAL) // [C07.pseudo.lookup.bad_name]',
+                         """self.view(*old(hp)).nodes.contains_key(parent) && is_utf8(name@) ==> (match lookup_target(self.view(*old(hp)), parent, utf8_dec(name@)) {
+                            Some(i) => r is Ok && pseudo_entry(r->Ok_0, i),
+                            None => r is Err && r->Err_0.os_code() == Some(libc::ENOENT) }) // [C07.pseudo.lookup.result] the child of `parent` with that name (its inode number, directory attributes), `.` = the directory, `..` = its parent, ENOENT otherwise"""],
+                splices=[('||', 'closure', ENOENT_CL),
+                         ('|_v|', 'closure', '|_v: Utf8Error| -> (q: Error) ensures q.os_code() == Some(libc::EINVAL),'),
+                         ('let mut ino: u64 = 0;', 'after', """proof {
+            reveal_strlit("."); reveal_strlit(".."); assert("."@ =~= dot()); assert(".."@ =~= dotdot());
+            lemma_child_named(self.im(*hp), self.root_inode, self.nx(*hp), *hp, parent, child_name@);
+        }"""),
+                         ('for child in kidsp.iter() {', 'replace', LK_SCAN)]),
+             ['load'])
+    ga = tok(Fn(PFS, FS, 'getattr', props=P7, canary=True, sig_subst=[('_: &Context', '_ctx: &Context'), ('_: Option<u64>', '_fh: Option<u64>')],
+                requires=['self.cells_ok(*old(hp))', 'forall|k: u64| #[trigger] self.im(*old(hp)).contains_key(k) ==> self.im(*old(hp))[k].ino == k'],
+                ensures=['%s == %s // [C07.pseudo.getattr.frame]' % (H1, H0),
+                         '!self.view(*old(hp)).nodes.contains_key(inode) ==> r is Err && r->Err_0.os_code() == Some(libc::ENOENT) // [C07.pseudo.getattr.unknown]',
+                         'self.view(*old(hp)).nodes.contains_key(inode) ==> r is Ok && (exists|e: Entry| pseudo_entry(e, inode) && r->Ok_0.0 == e.attr && r->Ok_0.1 == e.attr_timeout) // [C07.pseudo.getattr.dir] the attributes lookup reports for the same number'],
+                splices=[('||', 'closure', ENOENT_CL),
+                         ('|inode|', 'closure', '|inode: &Arc<PseudoInode>| -> (q: u64) ensures q == inode.ino,')]),
+             ['load'])
+    acc = Fn(PFS, FS, 'access', props=P7, canary=True, ensures=['r is Ok // [C07.pseudo.access.ok] every pseudo directory is accessible to everyone (mode rwxrwxrwx)'])
+    items.append(Group('impl PseudoFs {', [ge, lk, ga, acc]))
     u = Unit('pseudofs', items, preludes=['base.rs', 'stdmodel.rs'], generic_tags={})
     return u
